@@ -1,6 +1,6 @@
 #!/bin/bash
 # every seeded change against the check of its own property (scratch worktree + PYTHONPATH shadowing)
-cd /verif
+cd "$(dirname "$(readlink -f "$0")")/.."
 for d in seeded/*/; do
   s=$(basename $d); p=${s%%_*}
   python3 tools/seedtool.py check $d $p > /tmp/seedm_$s.log 2>&1
